@@ -1318,3 +1318,103 @@ fire("c19-evaluate-rational-inverted", ["C19"], MI,
      "    def map_rational(self, expr, *args, **kwargs):\n"
      "        return self.map_algebraic_leaf(expr, *args, **kwargs)",
      "E/EvaluationMapper/Rational")
+
+# ---------------------------------------------------------------------------
+# C16
+# ---------------------------------------------------------------------------
+UNF = "pymbolic/mapper/unifier.py"
+TFF = "pymbolic/interop/matchpy/tofrom.py"
+MPF = "pymbolic/interop/matchpy/__init__.py"
+
+fire("c16-power-crossed-fields", ["C16"], UNF,
+     "        return self.rec(expr.base, other.base,\n"
+     "                self.rec(expr.exponent, other.exponent, urecs))",
+     "        return self.rec(expr.base, other.exponent,\n"
+     "                self.rec(expr.exponent, other.base, urecs))",
+     "F/UnifierBase/map_power")
+fire("c16-if-forgets-else", ["C16"], UNF,
+     "        return self.rec(expr.condition, other.condition,\n"
+     "                self.rec(expr.then, other.then,\n"
+     "                    self.rec(expr.else_, other.else_, urecs)))",
+     "        return self.rec(expr.condition, other.condition,\n"
+     "                self.rec(expr.then, other.then, urecs))",
+     "F/UnifierBase/map_if/If")
+fire("c16-quotient-no-class-test", ["C16"], UNF,
+     "    def map_quotient(self, expr, other, urecs):\n"
+     "        if not isinstance(other, type(expr)):\n"
+     "            return self.treat_mismatch(expr, other, urecs)\n\n",
+     "    def map_quotient(self, expr, other, urecs):\n",
+     "class-tested-first")
+fire("c16-comparison-operator-ignored", ["C16"], UNF,
+     "        if (not isinstance(other, type(expr))\n"
+     "                or expr.operator != other.operator):\n"
+     "            return self.treat_mismatch(expr, other, urecs)\n\n"
+     "        return self.rec(expr.left, other.left,",
+     "        if not isinstance(other, type(expr)):\n"
+     "            return self.treat_mismatch(expr, other, urecs)\n\n"
+     "        return self.rec(expr.left, other.left,",
+     "data-field-compared:operator")
+fire("c16-lookup-name-ignored", ["C16"], UNF,
+     "        if expr.name != other.name:\n            return []\n\n"
+     "        return self.rec(expr.aggregate, other.aggregate, urecs)",
+     "        return self.rec(expr.aggregate, other.aggregate, urecs)",
+     "data-field-compared:name")
+fire("c16-records-not-threaded", ["C16"], UNF,
+     "        return self.rec(expr.shiftee, other.shiftee,\n"
+     "                self.rec(expr.shift, other.shift, urecs))",
+     "        self.rec(expr.shift, other.shift, urecs)\n"
+     "        return self.rec(expr.shiftee, other.shiftee, urecs)",
+     "records-threaded")
+fire("c16-candidate-filter-dropped", ["C16"], UNF,
+     "        if (self.lhs_mapping_candidates is not None\n"
+     "                and lhs_is_var\n"
+     "                and lhs.name not in self.lhs_mapping_candidates):\n"
+     "            return None\n", "",
+     "P/unification_record_from_equation")
+fire("c16-direct-record", ["C16"], UNF,
+     "        new_uni_record = self.unification_record_from_equation(\n"
+     "                expr, other)\n",
+     "        new_uni_record = UnificationRecord([(expr, other)])\n",
+     "O/UnificationRecord/site:UnifierBase.map_variable")
+fire("c16-unify-map-overwrites", ["C16"], UNF,
+     "        if name in map1:\n            if map1[name] != value:\n"
+     "                return None\n        else:\n            result[name] = value",
+     "        result[name] = value",
+     "P/unify_map")
+fire("c16-constants-always-match", ["C16"], UNF,
+     "        if expr == other:\n            return urecs\n        else:\n            return []",
+     "        return urecs",
+     "P/UnifierBase/map_constant")
+fire("c16-matchpy-quotient-swapped", ["C16"], TFF,
+     "        return m.TrueDiv(self.rec(expr.numerator), self.rec(expr.denominator))",
+     "        return m.TrueDiv(self.rec(expr.denominator), self.rec(expr.numerator))",
+     "T/matchpy/roundtrip/Quotient")
+fire("c16-matchpy-from-power-swapped", ["C16"], TFF,
+     "        return p.Power(self.rec(expr.x1), self.rec(expr.x2))",
+     "        return p.Power(self.rec(expr.x2), self.rec(expr.x1))",
+     "T/matchpy/roundtrip/Power")
+fire("c16-matchpy-modulo-as-floordiv", ["C16"], TFF,
+     "        return p.Remainder(self.rec(expr.x1), self.rec(expr.x2))",
+     "        return p.FloorDiv(self.rec(expr.x1), self.rec(expr.x2))",
+     "T/matchpy/roundtrip/Remainder")
+fire("c16-matchpy-if-swapped", ["C16"], TFF,
+     "        return m.If(self.rec(expr.condition),\n"
+     "                    self.rec(expr.then),\n                    self.rec(expr.else_))",
+     "        return m.If(self.rec(expr.condition),\n"
+     "                    self.rec(expr.else_),\n                    self.rec(expr.then))",
+     "T/matchpy/roundtrip/If")
+fire("c16-matchpy-handler-name", ["C16"], MPF,
+     "    _mapper_method: ClassVar[str] = \"map_modulo\"",
+     "    _mapper_method: ClassVar[str] = \"map_mod\"",
+     "T/matchpy/Modulo/from-handler")
+silent("c16-silent-guard-form", ["C16"], UNF,
+       "    def map_power(self, expr, other, urecs):\n"
+       "        if not isinstance(other, type(expr)):\n"
+       "            return self.treat_mismatch(expr, other, urecs)\n\n"
+       "        return self.rec(expr.base, other.base,\n"
+       "                self.rec(expr.exponent, other.exponent, urecs))",
+       "    def map_power(self, expr, other, urecs):\n"
+       "        if isinstance(other, type(expr)):\n"
+       "            urecs = self.rec(expr.exponent, other.exponent, urecs)\n"
+       "            return self.rec(expr.base, other.base, urecs)\n"
+       "        return self.treat_mismatch(expr, other, urecs)")
